@@ -272,6 +272,26 @@ class SimWorld(object):
         for mod in (circus.watcher, circus.arbiter):
             self._patch(mod, 'os', os_proxy)
         self._patch(circus.arbiter, 'socket', sock_proxy)
+
+        def v_read(fd, n):
+            # the capture pipes are blocking: a read with nothing to read
+            # and the writer still there keeps the daemon's only thread
+            # until the worker writes again (in the simulation: for ever)
+            import select as _select
+            try:
+                blocking = _real_os.get_blocking(fd)
+            except OSError:
+                blocking = False
+            if blocking and not _select.select([fd], [], [], 0)[0]:
+                if not world.blocked:
+                    import traceback
+                    world.blocked = True
+                    world.blocked_where = 'blocking-read:' + \
+                        _innermost_circus_frame(traceback.extract_stack())
+                raise SimBlocked()
+            return _real_os.read(fd, n)
+        import circus.stream.redirector as _redir
+        self._patch(_redir, 'os', _Proxy(_real_os, {'read': v_read}))
         self._patch(circus.controller, 'os', _Proxy(
             _real_os, {'chown': lambda *a, **kw: None}))
         self._patch(circus.watcher, 'randint', lambda a, b: a)
